@@ -764,7 +764,17 @@ fn tb_simple(ws: &[&str]) -> Option<String> {
 }
 
 fn tb_inner(ws: &[&str]) -> Option<Vec<String>> {
-    ws.join(" ").split(',').map(|p| tb_simple(&p.split_whitespace().collect::<Vec<_>>())).collect()
+    ws.join(" ")
+        .split(',')
+        .map(|p| {
+            let w: Vec<&str> = p.split_whitespace().collect();
+            // a body that signals `$$` from inside a subshell would reach the parent: not in the language
+            if w.first() == Some(&"T") && w.get(1).is_some_and(|a| a.starts_with('k')) {
+                return None;
+            }
+            tb_simple(&w)
+        })
+        .collect()
 }
 
 fn tb_stmt(ws: &[&str]) -> Option<String> {
@@ -849,10 +859,13 @@ fn run_tb_case(case: &str) -> (String, String) {
     );
     use yash_env::job::{ProcessResult, ProcessState};
     let pstate = cell.borrow().as_ref().map(|(st, pid)| st.borrow().processes[pid].state());
+    // A process of the virtual system that was terminated by a signal sent from another process keeps
+    // running as a task (without file descriptors): the process state tells, not `stuck`; and a later
+    // fatal signal overwrites the recorded one, so the number is not part of the observation.
     let end = match (o.stuck, pstate) {
+        (_, Some(ProcessState::Halted(ProcessResult::Signaled { .. }))) => "sig".to_string(),
+        (_, Some(ProcessState::Halted(ProcessResult::Stopped(_)))) => "stop".to_string(),
         (false, _) => "exit".to_string(),
-        (true, Some(ProcessState::Halted(ProcessResult::Signaled { signal, .. }))) => format!("sig{}", signal.as_raw()),
-        (true, Some(ProcessState::Halted(ProcessResult::Stopped(signal)))) => format!("stop{}", signal.as_raw()),
         (true, _) => "stuck".to_string(),
     };
     let out = o.stdout_str();
@@ -1213,4 +1226,116 @@ fn main() {
         }
     }
     let _ = count;
+
+    // 6. `tb`: the trap built-in's forms, kill under every disposition, subshells, wait, EXIT
+    let emit_tb = |case: String, out: &mut dyn FnMut(&str, &str, &str)| {
+        let (obs, oracle, _) = run_guarded(&case);
+        out(&case, &obs, &oracle);
+    };
+    let igns = ["", "ign INT; ", "ign USR1 TERM QUIT; "];
+    // (a) every action form x operand list (names, numbers, EXIT, KILL/STOP, unknown, none)
+    let acts = ["-", "E", "c1", "k2"];
+    let oplists = [
+        "INT", "2", "USR1 TERM", "0", "EXIT", "KILL", "INT KILL", "STOP USR1", "FOO", "999", "INT FOO", "",
+        "RTMIN+1", "209", "HUP 1", "0 INT 15",
+    ];
+    let tails = [
+        "P; PC INT 0 USR1 TERM; K INT; R 1; K USR1; R 2",
+        "PC 2 15 124 0; sub P; K TERM; R 1",
+        "PP; R 1; K HUP; R 2",
+    ];
+    for ig in igns {
+        for a in acts {
+            for ops in oplists {
+                for tail in tails {
+                    emit_tb(format!("tb {ig}T c9 USR2; T {a} {ops}; {tail}"), &mut out);
+                }
+            }
+        }
+    }
+    // (b) no action operand
+    for ig in igns {
+        for ops in ["2", "2 3", "0", "INT", "999", "15 FOO", "", "0 2 124"] {
+            emit_tb(format!("tb {ig}T c1 INT QUIT 0 USR1; TN {ops}; P; R 1; PC 2 3 0"), &mut out);
+        }
+    }
+    // (c) a signal sent to the shell itself under every disposition, for every signal of the system
+    let all_names: Vec<String> = {
+        let w = World::new();
+        Condition::iter(&w.env.system).skip(1).map(|c| c.to_string(&w.env.system).into_owned()).collect()
+    };
+    for name in &all_names {
+        for pre in ["", "T - S; ", "T E S; ", "T c1 S; T - S; ", "T c1 S; ", "T c1 S; sub K S , R 3; "] {
+            let pre = pre.replace('S', name);
+            if pre.contains(", R 3") {
+                // `kill` inside a subshell is not in the case language: use the parent form instead
+                emit_tb(format!("tb T c1 {name}; sub T c2 {name} , P; K {name}; R 1"), &mut out);
+            } else {
+                emit_tb(format!("tb {pre}K {name}; R 1; K {name}; R 2"), &mut out);
+            }
+        }
+    }
+    for name in ["INT", "QUIT", "TERM", "USR1", "TSTP", "CHLD"] {
+        emit_tb(format!("tb ign {name}; K {name}; R 1; T c1 {name}; K {name}; R 2; T - {name}; K {name}; R 3"), &mut out);
+    }
+    // (d) `wait` interrupted by trapped signals
+    let wacts = ["c1", "c2", "E", "k3", ""];
+    for (a, b) in [("INT", "USR1"), ("USR1", "INT"), ("TERM", "USR1"), ("USR1", "TERM"), ("INT", "TERM"), ("TERM", "INT")] {
+        for x in wacts {
+            for y in wacts {
+                let ta = if x.is_empty() { String::new() } else { format!("T {x} {a}; ") };
+                let tb_ = if y.is_empty() { String::new() } else { format!("T {y} {b}; ") };
+                emit_tb(format!("tb T c9 USR2; T c8 EXIT; {ta}{tb_}W {a} {b}; R 1; W {b}; R 2; X 5"), &mut out);
+            }
+        }
+    }
+    // (e) subshells, command substitutions and asynchronous commands see the traps of their parent
+    for pre in ["T c1 INT USR1; ", "T E INT; T c1 QUIT; ", "", "P; ", "ign INT; T c2 INT QUIT; ", "T c1 0; T c2 CHLD; "] {
+        for kind in ["sub", "cs", "bg"] {
+            for inner in ["P", "PC INT QUIT 0", "T E TERM , P", "T c3 INT , PC INT QUIT", "T - INT , T c4 0 , R 5", "X 3"] {
+                emit_tb(format!("tb {pre}{kind} {inner}; R 1; P"), &mut out);
+            }
+        }
+    }
+    // (f) random scripts over the whole statement language
+    let n_tb = if o.thorough() { 20_000 } else { 600 };
+    let mut rng = Rng::new(o.seed ^ 0x7B11);
+    let sigw = ["INT", "QUIT", "TERM", "USR1", "CHLD", "TSTP", "HUP", "2", "15", "124", "0", "EXIT"];
+    for _ in 0..n_tb {
+        let mut r = rng.fork();
+        let mut parts: Vec<String> = vec![];
+        if r.chance(1, 4) {
+            parts.push(format!("ign {}", r.pick(&["INT", "QUIT", "TERM", "USR1", "INT QUIT"])));
+        }
+        parts.push("T c9 USR2".into());
+        let simple = |r: &mut Rng| -> String {
+            match r.below(9) {
+                0..=3 => {
+                    let n = 1 + r.below(2);
+                    let ops: Vec<&str> = (0..n).map(|_| *r.pick(&sigw)).collect();
+                    format!("T {} {}", r.pick(&["-", "E", "c1", "c2", "c3", "k4"]), ops.join(" "))
+                }
+                4 => "P".into(),
+                5 => format!("PC {} {}", r.pick(&sigw), r.pick(&sigw)),
+                6 => format!("R {}", 1 + r.below(5)),
+                7 => format!("S {}", r.below(4)),
+                _ => format!("TN {}", r.pick(&["2", "0", "15 124", "3"])),
+            }
+        };
+        let len = 3 + r.below(8);
+        for _ in 0..len {
+            let st = match r.below(12) {
+                0..=4 => simple(&mut r),
+                5 | 6 => format!("K {}", r.pick(&["INT", "QUIT", "TERM", "USR1", "CHLD", "HUP", "USR2", "WINCH"])),
+                7 => format!("{} {} , {}", r.pick(&["sub", "cs", "bg"]), simple(&mut r), simple(&mut r)).replace("T k4", "T c4"),
+                8 => format!("W {} {}", r.pick(&["INT", "USR1", "TERM"]), r.pick(&["INT", "USR1", "QUIT", "USR2"])),
+                9 => format!("R {}", 1 + r.below(5)),
+                10 if r.chance(1, 3) => format!("X {}", r.below(5)),
+                _ => simple(&mut r),
+            };
+            parts.push(st);
+        }
+        emit_tb(format!("tb {}", parts.join("; ")), &mut out);
+    }
+    emit_tb("conds".to_string(), &mut out);
 }
